@@ -867,9 +867,10 @@ private:
         while (old_size < new_size && !this->my_size.compare_exchange_weak(old_size, new_size))
         {}
 
-        int delta = static_cast<int>(new_size) - static_cast<int>(old_size);
-        if (delta > 0) {
-            return internal_grow(old_size, new_size, args...);
+        // old_size < new_size iff the compare_exchange above succeeded, i.e. this call owns [old_size, new_size)
+        const bool grown = old_size < new_size;
+        if (grown) {
+            internal_grow(old_size, new_size, args...);
         }
 
         size_type end_segment = this->segment_index_of(new_size - 1);
@@ -894,7 +895,7 @@ private:
         size_type cap = capacity();
         __TBB_ASSERT( cap >= new_size, nullptr);
     #endif
-        return iterator(*this, size());
+        return grown ? iterator(*this, old_size) : iterator(*this, size());
     }
 
     template <typename... Args>
